@@ -49,3 +49,79 @@ package document
 //@ ensures err == nil && old(cellPropsOwn(t)) ==> cellPropsOwn(t)
 //@ ensures err == nil && old(rowPropsOwn(t)) ==> rowPropsOwn(t)
 //@ ensures err == nil && old(paraRunsOwn(t)) && (forall k int :: 0 <= k && k < old(len(t.Rows[row].Cells[col].Paragraphs)) ==> t.Rows[row].Cells[col].Paragraphs[k] == old(t.Rows[row].Cells[col].Paragraphs[k])) && (forall r int, c int, k int :: 0 <= r && r < len(t.Rows) && 0 <= c && c < len(t.Rows[r].Cells) && (r != row || c != col) && 0 <= k && k < len(t.Rows[r].Cells[c].Paragraphs) ==> t.Rows[r].Cells[c].Paragraphs[k] == old(t.Rows[r].Cells[c].Paragraphs[k])) ==> paraRunsOwn(t)
+
+// ---------------------------------------------------------------- formatters of one cell's properties object
+// Each of them allocates the properties object on demand (fresh, hence shared with no other cell), writes ONE of its
+// fields and leaves every other cell's properties pointer and the same field of every other properties object alone.
+
+//@ func (*Table).SetCellShading
+//@ props C09
+//@ requires t != nil && rowsOwn(t) && cellPropsOwn(t)
+//@ modifies TableCell.Properties, TableCellProperties.Shd
+//@ ensures err == nil <==> (0 <= row && row < len(t.Rows) && 0 <= col && col < len(t.Rows[row].Cells) && config != nil)
+//@ ensures err != nil ==> unchangedHeap()
+//@ ensures err == nil ==> t.Rows[row].Cells[col].Properties != nil && (old(t.Rows[row].Cells[col].Properties) != nil ==> t.Rows[row].Cells[col].Properties == old(t.Rows[row].Cells[col].Properties)) && (old(t.Rows[row].Cells[col].Properties) == nil ==> fresh(t.Rows[row].Cells[col].Properties))
+//@ ensures err == nil ==> t.Rows[row].Cells[col].Properties.Shd != nil && fresh(t.Rows[row].Cells[col].Properties.Shd) && t.Rows[row].Cells[col].Properties.Shd.Val == string(config.Pattern) && t.Rows[row].Cells[col].Properties.Shd.Color == config.ForegroundColor && t.Rows[row].Cells[col].Properties.Shd.Fill == config.BackgroundColor
+//@ ensures err == nil ==> t.Rows[row].Cells[col].Properties.GridSpan == old(ite(t.Rows[row].Cells[col].Properties == nil, nil, t.Rows[row].Cells[col].Properties.GridSpan)) && t.Rows[row].Cells[col].Properties.VMerge == old(ite(t.Rows[row].Cells[col].Properties == nil, nil, t.Rows[row].Cells[col].Properties.VMerge)) && t.Rows[row].Cells[col].Properties.TcBorders == old(ite(t.Rows[row].Cells[col].Properties == nil, nil, t.Rows[row].Cells[col].Properties.TcBorders)) && t.Rows[row].Cells[col].Properties.TextDirection == old(ite(t.Rows[row].Cells[col].Properties == nil, nil, t.Rows[row].Cells[col].Properties.TextDirection)) && t.Rows[row].Cells[col].Properties.VAlign == old(ite(t.Rows[row].Cells[col].Properties == nil, nil, t.Rows[row].Cells[col].Properties.VAlign))
+//@ ensures err == nil ==> forall r int, c int :: 0 <= r && r < len(t.Rows) && 0 <= c && c < len(t.Rows[r].Cells) && (r != row || c != col) ==> t.Rows[r].Cells[c].Properties == old(t.Rows[r].Cells[c].Properties) && (t.Rows[r].Cells[c].Properties != nil ==> t.Rows[r].Cells[c].Properties.Shd == old(t.Rows[r].Cells[c].Properties.Shd))
+//@ ensures err == nil ==> rowsOwn(t) && cellPropsOwn(t)
+//@ ensures err == nil && old(rowPropsOwn(t)) ==> rowPropsOwn(t)
+//@ ensures err == nil && old(cellParasOwn(t)) ==> cellParasOwn(t)
+//@ ensures err == nil && old(paraRunsOwn(t)) ==> paraRunsOwn(t)
+
+//@ func (*Table).SetCellTextDirection
+//@ props C09
+//@ requires t != nil && rowsOwn(t) && cellPropsOwn(t)
+//@ modifies TableCell.Properties, TableCellProperties.TextDirection
+//@ ensures err == nil <==> (0 <= row && row < len(t.Rows) && 0 <= col && col < len(t.Rows[row].Cells))
+//@ ensures err != nil ==> unchangedHeap()
+//@ ensures err == nil ==> t.Rows[row].Cells[col].Properties != nil && (old(t.Rows[row].Cells[col].Properties) != nil ==> t.Rows[row].Cells[col].Properties == old(t.Rows[row].Cells[col].Properties)) && (old(t.Rows[row].Cells[col].Properties) == nil ==> fresh(t.Rows[row].Cells[col].Properties))
+//@ ensures err == nil ==> t.Rows[row].Cells[col].Properties.TextDirection != nil && fresh(t.Rows[row].Cells[col].Properties.TextDirection) && t.Rows[row].Cells[col].Properties.TextDirection.Val == string(direction)
+//@ ensures err == nil ==> t.Rows[row].Cells[col].Properties.GridSpan == old(ite(t.Rows[row].Cells[col].Properties == nil, nil, t.Rows[row].Cells[col].Properties.GridSpan)) && t.Rows[row].Cells[col].Properties.VMerge == old(ite(t.Rows[row].Cells[col].Properties == nil, nil, t.Rows[row].Cells[col].Properties.VMerge)) && t.Rows[row].Cells[col].Properties.TcBorders == old(ite(t.Rows[row].Cells[col].Properties == nil, nil, t.Rows[row].Cells[col].Properties.TcBorders)) && t.Rows[row].Cells[col].Properties.Shd == old(ite(t.Rows[row].Cells[col].Properties == nil, nil, t.Rows[row].Cells[col].Properties.Shd)) && t.Rows[row].Cells[col].Properties.VAlign == old(ite(t.Rows[row].Cells[col].Properties == nil, nil, t.Rows[row].Cells[col].Properties.VAlign))
+//@ ensures err == nil ==> forall r int, c int :: 0 <= r && r < len(t.Rows) && 0 <= c && c < len(t.Rows[r].Cells) && (r != row || c != col) ==> t.Rows[r].Cells[c].Properties == old(t.Rows[r].Cells[c].Properties) && (t.Rows[r].Cells[c].Properties != nil ==> t.Rows[r].Cells[c].Properties.TextDirection == old(t.Rows[r].Cells[c].Properties.TextDirection))
+//@ ensures err == nil ==> rowsOwn(t) && cellPropsOwn(t)
+//@ ensures err == nil && old(rowPropsOwn(t)) ==> rowPropsOwn(t)
+//@ ensures err == nil && old(cellParasOwn(t)) ==> cellParasOwn(t)
+//@ ensures err == nil && old(paraRunsOwn(t)) ==> paraRunsOwn(t)
+
+//@ func (*Table).SetCellBorders
+//@ props C09
+//@ requires t != nil && rowsOwn(t) && cellPropsOwn(t)
+//@ modifies TableCell.Properties, TableCellProperties.TcBorders
+//@ ensures err == nil <==> (0 <= row && row < len(t.Rows) && 0 <= col && col < len(t.Rows[row].Cells) && config != nil)
+//@ ensures err != nil ==> unchangedHeap()
+//@ ensures err == nil ==> t.Rows[row].Cells[col].Properties != nil && (old(t.Rows[row].Cells[col].Properties) != nil ==> t.Rows[row].Cells[col].Properties == old(t.Rows[row].Cells[col].Properties)) && (old(t.Rows[row].Cells[col].Properties) == nil ==> fresh(t.Rows[row].Cells[col].Properties))
+//@ ensures err == nil ==> t.Rows[row].Cells[col].Properties.TcBorders != nil && fresh(t.Rows[row].Cells[col].Properties.TcBorders)
+//@ ensures err == nil ==> ((t.Rows[row].Cells[col].Properties.TcBorders.Top != nil) == (config.Top != nil)) && ((t.Rows[row].Cells[col].Properties.TcBorders.Left != nil) == (config.Left != nil)) && ((t.Rows[row].Cells[col].Properties.TcBorders.Bottom != nil) == (config.Bottom != nil)) && ((t.Rows[row].Cells[col].Properties.TcBorders.Right != nil) == (config.Right != nil)) && ((t.Rows[row].Cells[col].Properties.TcBorders.TL2BR != nil) == (config.DiagDown != nil)) && ((t.Rows[row].Cells[col].Properties.TcBorders.TR2BL != nil) == (config.DiagUp != nil)) && t.Rows[row].Cells[col].Properties.TcBorders.InsideH == nil && t.Rows[row].Cells[col].Properties.TcBorders.InsideV == nil
+//@ ensures err == nil && config.Top != nil ==> fresh(t.Rows[row].Cells[col].Properties.TcBorders.Top) && t.Rows[row].Cells[col].Properties.TcBorders.Top.Val == string(config.Top.Style) && t.Rows[row].Cells[col].Properties.TcBorders.Top.Sz == itoa(config.Top.Width) && t.Rows[row].Cells[col].Properties.TcBorders.Top.Space == itoa(config.Top.Space) && t.Rows[row].Cells[col].Properties.TcBorders.Top.Color == config.Top.Color
+//@ ensures err == nil && config.Left != nil ==> fresh(t.Rows[row].Cells[col].Properties.TcBorders.Left) && t.Rows[row].Cells[col].Properties.TcBorders.Left.Val == string(config.Left.Style) && t.Rows[row].Cells[col].Properties.TcBorders.Left.Sz == itoa(config.Left.Width)
+//@ ensures err == nil && config.Bottom != nil ==> fresh(t.Rows[row].Cells[col].Properties.TcBorders.Bottom) && t.Rows[row].Cells[col].Properties.TcBorders.Bottom.Val == string(config.Bottom.Style) && t.Rows[row].Cells[col].Properties.TcBorders.Bottom.Sz == itoa(config.Bottom.Width)
+//@ ensures err == nil && config.Right != nil ==> fresh(t.Rows[row].Cells[col].Properties.TcBorders.Right) && t.Rows[row].Cells[col].Properties.TcBorders.Right.Val == string(config.Right.Style) && t.Rows[row].Cells[col].Properties.TcBorders.Right.Sz == itoa(config.Right.Width)
+//@ ensures err == nil ==> t.Rows[row].Cells[col].Properties.GridSpan == old(ite(t.Rows[row].Cells[col].Properties == nil, nil, t.Rows[row].Cells[col].Properties.GridSpan)) && t.Rows[row].Cells[col].Properties.VMerge == old(ite(t.Rows[row].Cells[col].Properties == nil, nil, t.Rows[row].Cells[col].Properties.VMerge)) && t.Rows[row].Cells[col].Properties.Shd == old(ite(t.Rows[row].Cells[col].Properties == nil, nil, t.Rows[row].Cells[col].Properties.Shd)) && t.Rows[row].Cells[col].Properties.TextDirection == old(ite(t.Rows[row].Cells[col].Properties == nil, nil, t.Rows[row].Cells[col].Properties.TextDirection)) && t.Rows[row].Cells[col].Properties.VAlign == old(ite(t.Rows[row].Cells[col].Properties == nil, nil, t.Rows[row].Cells[col].Properties.VAlign))
+//@ ensures err == nil ==> forall r int, c int :: 0 <= r && r < len(t.Rows) && 0 <= c && c < len(t.Rows[r].Cells) && (r != row || c != col) ==> t.Rows[r].Cells[c].Properties == old(t.Rows[r].Cells[c].Properties) && (t.Rows[r].Cells[c].Properties != nil ==> t.Rows[r].Cells[c].Properties.TcBorders == old(t.Rows[r].Cells[c].Properties.TcBorders))
+//@ ensures err == nil ==> rowsOwn(t) && cellPropsOwn(t)
+//@ ensures err == nil && old(rowPropsOwn(t)) ==> rowPropsOwn(t)
+//@ ensures err == nil && old(cellParasOwn(t)) ==> cellParasOwn(t)
+//@ ensures err == nil && old(paraRunsOwn(t)) ==> paraRunsOwn(t)
+
+//@ func (*Table).RemoveCellBorders
+//@ props C09
+//@ requires t != nil && rowsOwn(t) && cellPropsOwn(t)
+//@ modifies TableCell.Properties, TableCellProperties.TcBorders
+//@ ensures err == nil <==> (0 <= row && row < len(t.Rows) && 0 <= col && col < len(t.Rows[row].Cells))
+//@ ensures err != nil ==> unchangedHeap()
+//@ ensures err == nil ==> t.Rows[row].Cells[col].Properties != nil && (old(t.Rows[row].Cells[col].Properties) != nil ==> t.Rows[row].Cells[col].Properties == old(t.Rows[row].Cells[col].Properties)) && (old(t.Rows[row].Cells[col].Properties) == nil ==> fresh(t.Rows[row].Cells[col].Properties))
+//@ ensures err == nil ==> t.Rows[row].Cells[col].Properties.TcBorders != nil && fresh(t.Rows[row].Cells[col].Properties.TcBorders)
+//@ ensures err == nil ==> t.Rows[row].Cells[col].Properties.TcBorders.Top != nil && t.Rows[row].Cells[col].Properties.TcBorders.Top.Val == "none" && t.Rows[row].Cells[col].Properties.TcBorders.Left != nil && t.Rows[row].Cells[col].Properties.TcBorders.Left.Val == "none" && t.Rows[row].Cells[col].Properties.TcBorders.Bottom != nil && t.Rows[row].Cells[col].Properties.TcBorders.Bottom.Val == "none" && t.Rows[row].Cells[col].Properties.TcBorders.Right != nil && t.Rows[row].Cells[col].Properties.TcBorders.Right.Val == "none" && t.Rows[row].Cells[col].Properties.TcBorders.TL2BR == nil && t.Rows[row].Cells[col].Properties.TcBorders.TR2BL == nil
+//@ ensures err == nil ==> t.Rows[row].Cells[col].Properties.GridSpan == old(ite(t.Rows[row].Cells[col].Properties == nil, nil, t.Rows[row].Cells[col].Properties.GridSpan)) && t.Rows[row].Cells[col].Properties.VMerge == old(ite(t.Rows[row].Cells[col].Properties == nil, nil, t.Rows[row].Cells[col].Properties.VMerge)) && t.Rows[row].Cells[col].Properties.Shd == old(ite(t.Rows[row].Cells[col].Properties == nil, nil, t.Rows[row].Cells[col].Properties.Shd))
+//@ ensures err == nil ==> forall r int, c int :: 0 <= r && r < len(t.Rows) && 0 <= c && c < len(t.Rows[r].Cells) && (r != row || c != col) ==> t.Rows[r].Cells[c].Properties == old(t.Rows[r].Cells[c].Properties) && (t.Rows[r].Cells[c].Properties != nil ==> t.Rows[r].Cells[c].Properties.TcBorders == old(t.Rows[r].Cells[c].Properties.TcBorders))
+//@ ensures err == nil ==> rowsOwn(t) && cellPropsOwn(t)
+//@ ensures err == nil && old(rowPropsOwn(t)) ==> rowPropsOwn(t)
+//@ ensures err == nil && old(cellParasOwn(t)) ==> cellParasOwn(t)
+//@ ensures err == nil && old(paraRunsOwn(t)) ==> paraRunsOwn(t)
+
+//@ func (*Table).SetCellPadding
+//@ props C09
+//@ requires t != nil
+//@ modifies nothing
+//@ ensures err == nil <==> (0 <= row && row < len(t.Rows) && 0 <= col && col < len(t.Rows[row].Cells))
